@@ -21,6 +21,19 @@ def c01 (j : Json) : Except String Json := do
     let covered := match p.ctes with
       | [c] => p.fusable c && decide (p.fuse c = Spec.flat m q)
       | _ => false
+    let why : String := match p.ctes with
+      | [c] =>
+        if p.ungrouped then "ungrouped"
+        else if !p.where_.isEmpty then "outer-where"
+        else if !p.having.all AExpr.noAgg then "having-with-aggregate"
+        else if !p.dims.all (fun it => (resolveKey c it).isSome) then "dimension-not-a-cte-column"
+        else if !p.mets.all (fun a => (resolveAgg c a).isSome) then "metric-not-agg-of-cte-column"
+        else if !p.fusable c then "not-fusable"
+        else if !decide ((p.fuse c).filt = (Spec.flat m q).filt) then "filters-differ"
+        else if !decide ((p.fuse c).keys = (Spec.flat m q).keys) then "keys-differ"
+        else if !decide ((p.fuse c).aggs = (Spec.flat m q).aggs) then "aggregates-differ"
+        else "covered"
+      | _ => "not-one-cte"
     let coveredFull := covered && decide (p.having = (Spec.metricFilters m q).map (havingOf m)) &&
       (Spec.metricFilters m q).all havingShape
     let coveredRaw := match p.ctes with
@@ -32,7 +45,7 @@ def c01 (j : Json) : Except String Json := do
       ("body", rowsJson p.columns (p.body db)),
       ("spec_body", rowsJson cols specBody),
       ("spec_columns", jstrs cols),
-      ("covered", covered), ("covered_raw", coveredRaw), ("covered_full", coveredFull),
+      ("covered", covered), ("covered_raw", coveredRaw), ("covered_full", coveredFull), ("why", why),
       ("n_metric_filters", (Spec.metricFilters m q).length)])
 
 end SideVerif.Drive
